@@ -283,7 +283,7 @@ func getColumnPlacement(rowPlacement [2]int, columnStart, columnEnd pr.GridLine,
 			if columnStart.IsAuto() {
 				pl = getPlacement(pr.GridLine{Val: x + 1}, columnEnd, columns)
 			} else {
-				if columnStart.Tag == pr.Span {
+				if columnStart.Tag != pr.Span {
 					panic("expected span")
 				}
 				// If the placement contains two spans, remove the one
@@ -314,7 +314,7 @@ func getColumnPlacement(rowPlacement [2]int, columnStart, columnEnd pr.GridLine,
 		if columnStart.IsAuto() {
 			return getPlacement(pr.GridLine{Val: y + 1}, columnEnd, columns)
 		} else {
-			if columnStart.Tag == pr.Span {
+			if columnStart.Tag != pr.Span {
 				panic("expected span")
 			}
 			// If the placement contains two spans, remove the one contributed
